@@ -474,10 +474,13 @@ def report(prop, tier, seed, contracts, results, args, wall):
         for d in defects[:20]:
             print(f"CHECKER-DEFECT property={prop} {d}")
         rc = 3 if rc == 0 else rc
-    if undecided and rc == 0:
-        for u in undecided[:20]:
-            print(f"UNDECIDED property={prop} {u['obligation']}: {u['why']}")
-        rc = 2
+    if undecided:
+        for u in undecided[:12]:
+            print(f"UNDECIDED property={prop} {u['obligation']}: {u['why'][:300]}")
+        if len(undecided) > 12:
+            print(f"UNDECIDED property={prop} ... {len(undecided) - 12} more")
+        if rc == 0:
+            rc = 2
     print(f"{prop} tier={tier} obligations={obligations} discharged={discharged} bounded={len(bounded_parts)} "
           f"undecided={len(undecided)} known={len(seen_known)} violations={len(violations)} "
           f"paths={paths} solver={solver_time:.1f}s time={wall:.1f}s")
